@@ -58,6 +58,22 @@ def lf (ws : List String) : String :=
       let kk := nat! k
       let fails := if mode == "persist" then (fun i => decide (i ≥ kk)) else (fun i => decide (i = kk))
       showW (writeDoc fails (nl == "1") (parseDoc d))
+  | ["writeo", nl, k, mode, flags, d] =>
+      let doc := parseDoc d
+      let fl := flags.toList
+      let flagOp (i : Nat) : List WOp :=
+        match fl[i]? with
+        | some '0' => [WOp.setNl false]
+        | some '1' => [WOp.setNl true]
+        | _ => []
+      let ops := (doc.zipIdx.flatMap (fun li =>
+        flagOp li.2 ++ (WOp.link li.1.1 :: li.1.2.map WOp.attr))) ++ flagOp doc.length
+      let fails : Nat → Bool :=
+        if k == "-" then (fun _ => false)
+        else
+          let kk := nat! k
+          if mode == "persist" then (fun i => decide (i ≥ kk)) else (fun i => decide (i = kk))
+      showW (writeOps fails (nl == "1") ops)
   | ["rt", nl, d] =>
       let out := (writeDoc (fun _ => false) (nl == "1") (parseDoc d)).sink
       showItems out (parseLinks out)
